@@ -68,12 +68,18 @@ def blanks (n : Nat) : Str := List.replicate n ' '
 
 def renderBytes (bs : List (Char × Char)) : Str := bs.flatMap fun (a, b) => [a, b, ' ']
 
+/-- what follows the operand text: the `<symbol+off>` annotation and the `# comment` -/
+def afterOps (l : InstLine) : Str :=
+  (match l.annot with | some a => ' ' :: '<' :: a ++ ['>'] | none => []) ++
+    (match l.comment with | some c => blanks 8 ++ '#' :: ' ' :: c | none => [])
+
+/-- the text after the mnemonic -/
+def tailText (l : InstLine) : Str :=
+  (if l.ops.isEmpty then [] else blanks l.gap ++ joinSep [','] (l.ops.map Operand.print)) ++ afterOps l
+
 def renderLine : LineSpec → Str
   | .inst l =>
-    blanks l.indent ++ l.addr ++ ':' :: '\t' :: renderBytes l.bytes ++ blanks l.pad ++ '\t' :: l.mnem ++
-      (if l.ops.isEmpty then [] else blanks l.gap ++ joinSep [','] (l.ops.map Operand.print)) ++
-      (match l.annot with | some a => ' ' :: '<' :: a ++ ['>'] | none => []) ++
-      (match l.comment with | some c => blanks 8 ++ '#' :: ' ' :: c | none => [])
+    blanks l.indent ++ l.addr ++ ':' :: '\t' :: (renderBytes l.bytes ++ blanks l.pad ++ '\t' :: (l.mnem ++ tailText l))
   | .cont indent addr bs => blanks indent ++ addr ++ ':' :: '\t' :: renderBytes bs
   | .label addr name => addr ++ ' ' :: '<' :: name ++ ['>', ':']
   | .blank => []
